@@ -21,7 +21,9 @@ RULE = ('coupling models: random lattice (Chain/Ladder/Square/Honeycomb, <=8 sit
         'open/periodic/infinite boundaries; default/snake/C/F order), site pool spin-1/2, spin-1, boson, fermion, '
         'spinful fermion with every conserve option and mixed unit cells, 1-6 calls of add_onsite/add_coupling/'
         'add_multi_coupling/add_*_term/add_exponentially_decaying_coupling/centered with dyadic real/complex scalar or '
-        'site-dependent strengths, plus_hc, explicit_plus_hc, sort_mpo_legs; predefined models of tenpy.models over a '
+        'site-dependent strengths, plus_hc, explicit_plus_hc, sort_mpo_legs; a fifth of the cases are nearest-neighbour chains '
+        'with uniform or site-dependent fields (3/4 of them infinite, unit cell 1-3), for which H_bond, calc_H_MPO_from_bond, '
+        'calc_H_bond_from_MPO, from_MPOModel and bond_energies are representations too; predefined models of tenpy.models over a '
         'small parameter grid.  Every case runs on the real classes, on the Lean model (containers, term lists, MPO '
         'graph edges/states, formal sum of graph paths vs formal sum of terms, bond pieces, dense evaluation) and on an '
         'independent many-body oracle (explicit Jordan-Wigner strings, brute-force lattice enumeration); all dense '
@@ -34,8 +36,14 @@ TRUSTED = ['Lean 4.33 kernel; axioms of every C10_* theorem ⊆ {propext, Classi
            'site operator tables and hc names (C12)',
            'oracle: numpy/scipy Kronecker products of the site matrices of the implementation',
            'dense exporters, npc contraction, grid_outer: compared at tolerance 1e-10, not proved',
-           'multi-site couplings and exponentially decaying terms: no path theorem; the path sum of the model graph is '
-           'compared with the model term lists on every case (paths_ok), the edge lists exactly with the implementation']
+           'multi-site couplings and exponentially decaying terms on finite chains: path theorems proved in C10/Props2.lean '
+           '(C10_graph_paths_multi, _coupling_merged, _exp, _all; C10_terms_termlist_multi under SwitchOpOK, which excludes '
+           'exactly the known finding on the switch-site operator); infinite unit cells (shift != 0) are not covered by a '
+           'theorem: there the path sum of the model graph is compared with the model term lists on a window of every case '
+           '(paths_ok), the edge lists exactly with the implementation',
+           'infinite nearest-neighbour models: bond operators / MPO from bonds / bonds from MPO are compared on a window up to '
+           'on-site terms on the two boundary sites, and through the energy per unit cell of a random iMPS (reduced density '
+           'matrices of the state by MPS.get_rho_segment)']
 ASSUMPTIONS = ['strengths are dyadic rationals, so float sums/products in tenpy are exact and comparable to Rat arithmetic',
                'operator names are opaque at the formal level (equal formal sums ⇒ equal operators, not conversely)']
 
@@ -62,6 +70,8 @@ def case_hist(case):
     h.append('order=' + str(lat.get('order', 'default')))
     h.append('explicit_plus_hc=%s' % bool(case.get('explicit')))
     h.append('sort_mpo_legs=%s' % bool(case.get('sort_mpo_legs')))
+    if case.get('nn_only'):
+        h.append('nearest_neighbour_chain L=%d %s' % (lat['Ls'][0], lat['bc_MPS']))
     for s in {json.dumps(s, sort_keys=True) for s in case['sites']}:
         s = json.loads(s)
         h.append('site=%s(%s)' % (s['cls'], ','.join(str(v) for v in s['kw'].values())))
